@@ -490,7 +490,7 @@ func methBatches() []batch {
 		{"k.meth", "class instance method calling another with self state", "class KMeth\n  getter a: Int\n  init(@a: Int); end\n  def double: Int then @a * 2\n  def quad: Int then self.double * 2\nend\n", "k_meth := KMeth(3)\n" + o("k.meth", "q", "k_meth1", "k_meth.quad")},
 		{"k.inherit", "class inheritance and method override", "class KBase\n  def name: String then \"base\"\n  def hello: String then \"hello \" + self.name\nend\nclass KChild < KBase\n  def name: String then \"child\"\nend\n", "k_inh := KChild()\n" + o("k.inherit", "1", "k_inh1", "k_inh.hello") + "k_inh0 := KBase()\n" + o("k.inherit", "2", "k_inh2", "k_inh0.hello")},
 		{"k.opdef", "class with user-defined operator", "class KVec\n  getter x: Int\n  init(@x: Int); end\n  def +(other: KVec): KVec then KVec(@x + other.x)\nend\n", "k_vec := KVec(1) + KVec(2)\n" + o("k.opdef", "1", "k_vec1", "k_vec.x")},
-		{"k.tostring", "class overriding to_string used by interpolation", "class KStr\n  def to_string: String then \"<kstr>\"\nend\n", "k_str := KStr()\nk_str1 := \"v=#{k_str}\"\nprintln(\"k.tostring/1 \" + k_str1)\n"},
+		{"k.tostring", "class with a to_string method called explicitly", "class KStr\n  def to_string: String then \"<kstr>\"\nend\n", "k_str := KStr()\nk_str1 := \"v=\" + k_str.to_string\nprintln(\"k.tostring/1 \" + k_str1)\n"},
 	}
 	g["module"] = []raw{
 		{"k.module", "module method", "module KMod\n  def twice(a: Int): Int then a * 2\nend\n", o("k.module", "1", "k_mod1", "KMod.twice(4)")},
